@@ -605,12 +605,12 @@ Proof.
   assert (F1 : forall u, In u (tuns s z) -> t_sid u <> sid).
   { intros u Hu E. destruct (i_owner s I z u Hu) as [O1 _]. rewrite E, ON in O1. destruct (t_ini u) eqn:Iu.
     - pose proof (i_reg_t s I z u Hu) as R. unfold reg_entry in R. rewrite Iu, E in R.
-      pose proof (reg_functional _ _ _ _ (i_reg_fun s I) R RN) as EE. inversion EE as [[Ehh _ _]].
+      pose proof (reg_functional _ _ _ _ (i_reg_fun s I) R RN) as EE. injection EE as Ehh _ _.
       apply NDone. rewrite <- Ehh. now apply (i_done_ini s I z u Hu).
     - now apply (other_neq z). }
   assert (F2 : ~ In sid (gone s z)).
   { intro H. destruct (i_gone_ini s I z sid H ON) as (h' & r' & i' & R & D).
-    pose proof (reg_functional _ _ _ _ (i_reg_fun s I) R RN) as EE. inversion EE; subst. now apply NDone. }
+    pose proof (reg_functional _ _ _ _ (i_reg_fun s I) R RN) as EE. injection EE as Ehh _ _. apply NDone. now rewrite <- Ehh. }
   assert (RegS : s_reg (put s z ns1 ms None) = s_reg s) by apply reg_put.
   apply (inv_grow s z ns1 ms None [t] [hid]); auto.
   - simpl. constructor; [|apply (i_nodup_l s I)]. intro H. apply in_map_iff in H as [u [E Hu]]. apply (NoL u Hu). congruence.
@@ -688,11 +688,11 @@ Qed.
 
 Lemma inv_init : Inv init.
 Proof.
-  constructor; try (intros x; destruct x; simpl; constructor); try (intros; destruct x; simpl in *; tauto);
-    try (simpl; intros; tauto); try (intros; destruct x; simpl in *; discriminate).
-  - simpl. constructor.
-  - intros y u; destruct y; simpl; tauto.
-  - intros y u c; destruct y; simpl; tauto.
+  assert (T : forall x, tuns init x = []) by (now intros []).
+  assert (G : forall x, gone init x = []) by (now intros []).
+  assert (D : forall x, done init x = []) by (now intros []).
+  assert (P : forall x, pend init x = None) by (now intros []).
+  constructor; intros; rewrite ?T, ?G, ?D, ?P in *; simpl in *; try tauto; try discriminate; try constructor.
 Qed.
 
 Lemma inv_step c s e : Inv s -> Inv (fst (step c s e)).
